@@ -44,6 +44,7 @@ type ProxyParams struct {
 	FailAt    int        `json:"fail_at"`    // role faults fire after this many envelopes were sent
 	Reattach  int        `json:"reattach"`   // 0 no, 1 re-attach the bad peer's name before its old connection fails, 2 after
 	CancelAt  int        `json:"cancel_at"`  // >0: cancel the proxy's context after this many driver steps of traffic
+	NoCallback bool      `json:"no_callback,omitempty"` // the proxy is built without a disconnect callback (the parameter is optional)
 	SameConn  bool       `json:"same_conn,omitempty"` // the re-attached connection is the SAME transport object, working again after the read that failed
 	Hostile   bool       `json:"hostile"`
 }
@@ -100,6 +101,9 @@ func genProxyRaw(hostile bool) func(g *rand.Rand, tier string) any {
 			}
 			if p.Reattach >= 2 && bad.Role == 2 && g.IntN(3) == 0 {
 				p.SameConn = true
+			}
+			if g.IntN(6) == 0 {
+				p.NoCallback = true
 			}
 			if g.IntN(3) == 0 {
 				p.CancelAt = 1 + g.IntN(120)
@@ -286,6 +290,16 @@ func execProxyRaw(e *Env, pp any) {
 	var releaseFn func(n string, r *Rpc)
 	maybeSent := map[string]int{}
 	attachedEv := map[string]int{} // late peers: event count when AddClient had returned
+	onDisc := func(id string, reason error) {
+		histMu.Lock()
+		disconnects = append(disconnects, id)
+		histMu.Unlock()
+		e.Pt("disconnect.cb") // the callback takes a while: other tasks may run meanwhile
+	}
+	if p.NoCallback {
+		onDisc = nil
+		e.Note("config.proxy.no-disconnect-callback")
+	}
 	px := goat.NewProxy(pctx, proxyName, func(id string) (goat.RpcReadWriter, error) {
 		// runs on a goat goroutine (proxyClient.connect)
 		e.Pt("dial")
@@ -322,12 +336,7 @@ func execProxyRaw(e *Env, pp any) {
 		dialDoneEv[fmt.Sprintf("%s.%d", id, rp.gen-1)] = dev
 		histMu.Unlock()
 		return b, nil
-	}, icpt, func(id string, reason error) {
-		histMu.Lock()
-		disconnects = append(disconnects, id)
-		histMu.Unlock()
-		e.Pt("disconnect.cb") // the callback takes a while: other tasks may run meanwhile
-	})
+	}, icpt, onDisc)
 	for _, n := range order {
 		rp := peers[n]
 		if rp.spec.Dial {
@@ -615,13 +624,13 @@ func execProxyRaw(e *Env, pp any) {
 				releaseDial()
 			}
 			if p.Reattach == 1 {
-				reattach()
+				e.Call("peer.bad.reattach", reattach)
 			}
 			doFail()
 			if p.Reattach == 2 {
 				// let the failure be processed first
 				e.Drive(nil)
-				reattach()
+				e.Call("peer.bad.reattach", reattach)
 			}
 			if p.Reattach == 3 {
 				// the scheduler decides where the re-attach lands relative to the
@@ -888,6 +897,14 @@ func execProxyRaw(e *Env, pp any) {
 				}
 			}
 		}
+		if p.NoCallback {
+			// nobody to tell; the removal of a connection whose reads failed (always
+			// noticed) is judged on the registry itself
+			if !cancelled && p.Reattach == 0 && bad != nil && (bad.spec.Role == 2 || bad.spec.Role == 4) && bad.firstPx != nil && goat.VerifProxyConn(px, n) == goat.RpcReadWriter(bad.firstPx) {
+				e.Violate(prop, "failed-connection-kept", badRoleName(bad)+".no-callback", "the failed connection of %s is still registered with the proxy (built without a disconnect callback)", n)
+			}
+			continue
+		}
 		if !found && !cancelled && need {
 			e.Violate(prop, "no-disconnect-callback", badRoleName(bad), "the connection of %s failed but the disconnect callback never named it", n)
 		}
@@ -1005,6 +1022,6 @@ var _ = proto.Equal
 func init() {
 	Register(&Family{Name: "c16.raw", ShrinkKeys: []string{"envs", "fail_at"}, Props: []string{"C16"}, New: func() any { return &ProxyParams{} }, Gen: genProxyRaw(false), Exec: execProxyRaw,
 		Faulty: true, FaultKinds: []string{"dial.error", "dial.slow"}})
-	Register(&Family{Name: "c17.peers", ShrinkKeys: []string{"envs", "fail_at", "cancel_at"}, Props: []string{"C17"}, New: func() any { return &ProxyParams{} }, Gen: genProxyRaw(true), Exec: execProxyRaw,
+	Register(&Family{Name: "c17.peers", ShrinkKeys: []string{"envs", "fail_at", "cancel_at"}, Props: []string{"C17", "C16"}, New: func() any { return &ProxyParams{} }, Gen: genProxyRaw(true), Exec: execProxyRaw,
 		Faulty: true, FaultKinds: []string{"peer.spoof", "peer.noheader", "link.readFail", "link.writeFail", "link.stall", "dial.error", "dial.slow", "peer.reattach", "proxy.cancel"}})
 }
